@@ -6,6 +6,7 @@ power sets, whole residues, termini, ligand atoms; also with --protonate-all): n
 is still among the groups and in the summary; rejected inputs raise ValueError and nothing else."""
 import io
 import itertools
+import math
 import traceback
 
 from vlib import common, structures
@@ -322,6 +323,18 @@ def run(chk: common.Check):
                 what = f"{n} chain end {r['name']}{r['num'].strip()}{r['chain']} without {[L[j][12:16].strip() for j in sset]}"
                 try_run(chk, found, what, remove_atoms(t, set(sset)), [], ignore)
                 chk.count(1, key=("chain-end", n, r["num"], sset))
+    # a ligand in its binding pocket (methotrexate of 4DFR chain A with the residues within 6 A): every single ligand atom removed in turn
+    t4 = [l for l in structures.read("4DFR.pdb").splitlines() if structures.is_atom(l) and l[21] == "A" and l[16] in " A" and l[17:20] != "HOH"]
+    ligl = [l for l in t4 if l[17:20] == "MTX"]
+    lpos = [[float(v) for v in structures.get_xyz(l)] for l in ligl]
+    near = {l[22:27] for l in t4 if l[:6] == "ATOM  " and any(math.dist([float(v) for v in structures.get_xyz(l)], p) < 6.0 for p in lpos)}
+    pocket = [l for l in t4 if (l[:6] == "ATOM  " and l[22:27] in near) or l[17:20] == "MTX"]
+    ptext = "\n".join(pocket) + "\nEND\n"
+    PL = ptext.splitlines()
+    lig_idx = [j for j, l in enumerate(PL) if l[17:20] == "MTX"]
+    for j in (lig_idx if chk.thorough else lig_idx[::2] + lig_idx[1::6]):
+        try_run(chk, found, f"4DFR methotrexate pocket without ligand atom {PL[j][12:16].strip()}", remove_atoms(ptext, {j}), [], ignore, check_sites=False)
+        chk.count(1, key=("ligand-atom", PL[j][12:16].strip()))
     # random multi-atom removal on whole structures, whole residues, termini, ligand atoms
     for n in ["3SGB-subset.pdb", "1HPX.pdb"] + (["1FTJ-Chain-A.pdb", "3SGB.pdb", "4DFR.pdb"] if chk.thorough else []):
         t = structures.read(n)
